@@ -52,6 +52,71 @@ def check(ctx):
     _dispatch(ctx, repo, cg, m)
     _ordering(ctx, repo, m)
     _handles(ctx, repo, m)
+    _translation(ctx, repo, m)
+
+
+def _translation(ctx, repo, m):
+    """C13-R7: whatever kind of command produced the response, a function result is replaced by a remote reference before the
+       reply is handed over - the translation tests are implied, as far as the command kind goes, by the conditions of every
+       assignment that produces a response."""
+    ctx.rule("C13-R7", "every command kind's result passes the function-to-reference translation (isinstance(response, KGFn|KGLambda) -> KGRemoteFnRef) before it is handed to the reply future: the translation is not conditional on the command kind unless each producing branch has its own")
+    srv = repo.fn(f"{IPC}:execute_server_command")
+    params = srv.params()
+    cmd = next((p for p in params if p == "command"), params[-2] if len(params) >= 2 else None)
+    # the response variable: what is handed to <future>.set_result
+    resp = None
+    for c in calls_in(srv.node):
+        for i, a in enumerate(c.args):
+            if isinstance(a, ast.Attribute) and a.attr == "set_result" and i + 1 < len(c.args) and isinstance(c.args[i + 1], ast.Name):
+                resp = c.args[i + 1].id
+        if isinstance(c.func, ast.Attribute) and c.func.attr == "set_result" and c.args and isinstance(c.args[0], ast.Name):
+            resp = c.args[0].id
+    if resp is None:
+        raise AnalysisError("C13-R7: the hand-over of the response to the reply future was not found in execute_server_command")
+
+    def cmd_atoms(node):
+        out = set()
+        for t, pol in atoms_at(node, srv.node):
+            if cmd in {n.id for n in ast.walk(t) if isinstance(n, ast.Name)}:
+                out.add((src(t), pol))
+        return out
+
+    trans, prods = [], []
+    assigns = [n for n in walk_local(srv.node) if isinstance(n, ast.Assign) and len(n.targets) == 1 and isinstance(n.targets[0], ast.Name)]
+    # the response may travel through copies (pre-translation name -> reply name)
+    aliases, grew = {resp}, True
+    while grew:
+        grew = False
+        for n in assigns:
+            if n.targets[0].id in aliases and isinstance(n.value, ast.Name) and n.value.id not in aliases:
+                aliases.add(n.value.id)
+                grew = True
+    for n in assigns:
+        if n.targets[0].id in aliases:
+            v = n.value
+            if isinstance(v, ast.Name) and v.id in aliases:
+                continue
+            if isinstance(v, ast.Call) and callee_name(v) == "KGRemoteFnRef":
+                kinds = set()
+                for t, pol in atoms_at(n, srv.node):
+                    if pol and isinstance(t, ast.Call) and callee_name(t) == "isinstance" and len(t.args) == 2 and src(t.args[0]) in aliases:
+                        tt = t.args[1]
+                        kinds |= {dotted(e) for e in (tt.elts if isinstance(tt, ast.Tuple) else [tt])}
+                trans.append((n, kinds, cmd_atoms(n)))
+            elif isinstance(v, ast.Constant):
+                continue
+            else:
+                prods.append(n)
+    kinds_all = set().union(*[k for _, k, _ in trans]) if trans else set()
+    ctx.floor("C13-R7", "function classes translated to a remote reference", len(kinds_all & {"KGFn", "KGLambda"}), 2)
+    ctx.floor("C13-R7", "assignments producing a response", len(prods), 3)
+    for a in prods:
+        sa = cmd_atoms(a)
+        ctx.instance("C13-R7", srv.fq, src(a)[:80])
+        for kind in sorted(kinds_all & {"KGFn", "KGLambda"}):
+            ok = any(kind in k and st <= sa and pos(t) > pos(a) for t, k, st in trans)
+            ctx.ob("C13-R7", srv.fq, f"a {kind} produced by `{src(a)[:60]}` is translated to KGRemoteFnRef before the reply", ok, node=a, construct=f"{kind} translation reaches `{src(a.value)[:40]}`",
+                   msg=f"the response assigned here can be a {kind}, but every translation to KGRemoteFnRef is guarded by a condition on the command kind that this branch does not satisfy: the function object itself is pickled into the reply, so the client gets something other than what local evaluation shows (or the reply fails to pickle)")
 
 
 def _frame(ctx, repo, m):
@@ -402,6 +467,8 @@ MUTATION_SCOPE = ['sys_fn_ipc:encode_message',
                   'types:KGUndefined.__reduce__']
 
 SEEDS = [
+    Seed("translation-under-else", "fault", IPC, "        if isinstance(response, KGFn):\n            response = KGRemoteFnRef(response.arity)\n        elif isinstance(response, KGLambda):\n            # TODO: move to using .arity for KGLambda\n            response = KGRemoteFnRef(response.get_arity())\n",
+         "            if isinstance(response, KGFn):\n                response = KGRemoteFnRef(response.arity)\n            elif isinstance(response, KGLambda):\n                response = KGRemoteFnRef(response.get_arity())\n", rule="C13-R7"),
     Seed("remote-dict-set-bypasses-setitem", "fault", IPC, "            klong[command.key] = command.value", "            klong._context[command.key] = command.value", rule="C13-R6"),
     Seed("dict-get-bypasses-interpreter-loop", "fault", IPC, "    klongloop.call_soon_threadsafe(asyncio.create_task, coroutine)\n",
          "    if isinstance(command, KGRemoteDictGetCall):\n        await coroutine\n    else:\n        klongloop.call_soon_threadsafe(asyncio.create_task, coroutine)\n", rule="C13-R4"),
